@@ -275,10 +275,65 @@ def bonferroni_sweep(tier, seed):
             fails.append({'input': {'v1': v1, 'v2': v2, 'e': e, 'alpha': alpha, 'student_alpha': alpha_s}, 'observed': probs[:3], 'expected': 'C06 oracle'})
             if len(fails) >= 8:
                 break
+    # several compared datasets: the level depends on the number of BINS, not on how many datasets share the test; flags of a dataset do not depend on its neighbours
+    for _ in range(40 if tier == 'quick' else 400):
+        n += 1
+        k = rng.choice((2, 3))
+        nd = rng.choice((2, 3))
+        v1 = [rng.choice([0.0, 1.0, 2.0]) for _ in range(k)]
+        e = [rng.choice([0.5, 1.0]) for _ in range(k)]
+        others = [[x + rng.choice([0.0, 0.5, 1.5, 2.3, 3.0]) for x in v1] for _ in range(nd)]
+        alpha = rng.choice((0.05, 0.2, 0.5))
+        st = TestStudent(_ds(v1, e), *[_ds(o, e) for o in others], name='s', alpha=alpha, ndf=20)
+        rs = st.evaluate()
+        rb = TestBonferroni(name='b', test=st, alpha=alpha).evaluate()
+        rh = TestHolmBonferroni(name='h', test=st, alpha=alpha).evaluate()
+        probs = []
+        for d in range(nd):
+            pv = [float(x) for x in np.ravel(rs.pvalue[d])]
+            wantb = [(x <= (alpha / 2) / k) if not math.isnan(x) else True for x in pv]
+            if np.ravel(rb.rejected_null_hyp[d]).tolist() != wantb:
+                probs.append(f'Bonferroni, dataset {d} of {nd}: flags {np.ravel(rb.rejected_null_hyp[d]).tolist()} != p <= (alpha/2)/{k} {wantb} for p-values {pv}')
+            order = sorted(range(k), key=lambda i: (math.isnan(pv[i]), pv[i]))
+            wanth = [None] * k
+            for rank, i in enumerate(order, start=1):
+                wanth[i] = (pv[i] < (alpha / 2) / (k - rank + 1)) if not math.isnan(pv[i]) else True
+            goth = np.ravel(rh.rejected_null_hyp[d]).tolist()
+            if goth != wanth and not _holm_tie_ok(pv, goth, alpha / 2):
+                probs.append(f'Holm, dataset {d} of {nd}: flags {goth} != rank rule {wanth} for p-values {pv}')
+        if probs:
+            fails.append({'input': {'v1': v1, 'others': others, 'e': e, 'alpha': alpha}, 'observed': probs[:3], 'expected': 'C06 oracle, per compared dataset'})
+            if len(fails) >= 8:
+                break
+    # memory layout: flags are reported at the original position of each bin whatever the array shape (2-d arrays, C and Fortran order, transposed views)
+    for shape, maker in (((2, 3), np.ascontiguousarray), ((2, 3), np.asfortranarray), ((3, 2), lambda a: np.ascontiguousarray(a.T).T)):
+        for _ in range(20 if tier == 'quick' else 200):
+            n += 1
+            p = [rng.choice(pool) for _ in range(6)]
+            level = rng.choice((0.05, 0.5))
+            arr = maker(np.array(p, dtype=float).reshape(shape))
+            flat = [float(x) for x in np.ravel(arr)]          # logical (C) order
+            probs = []
+            tb = TestBonferroni.bonferroni_correction(arr, level / 6)
+            wantb = [(x <= level / 6) if not math.isnan(x) else True for x in flat]
+            if np.shape(tb) != shape or np.ravel(tb).tolist() != wantb:
+                probs.append(f'Bonferroni flags {np.ravel(tb).tolist()} != {wantb} at the original positions')
+            _, th = TestHolmBonferroni.holm_bonferroni_method(arr, level)
+            order = sorted(range(6), key=lambda i: (math.isnan(flat[i]), flat[i]))
+            wanth = [None] * 6
+            for rank, i in enumerate(order, start=1):
+                wanth[i] = (flat[i] < level / (6 - rank + 1)) if not math.isnan(flat[i]) else True
+            goth = np.ravel(th).tolist()
+            if np.shape(th) != shape or (goth != wanth and not _holm_tie_ok(flat, goth, level)):
+                probs.append(f'Holm flags {goth} != rank rule {wanth} at the original positions (shape {np.shape(th)})')
+            if probs:
+                fails.append({'input': {'pvalues': p, 'shape': list(shape), 'memory_order': 'F' if maker is np.asfortranarray else ('C' if maker is np.ascontiguousarray else 'transposed view'),
+                                        'level': level}, 'observed': probs[:3], 'expected': 'flags at the original position of each bin whatever the array shape'})
+                break
     return {'name': 'bonferroni-holm-native', 'evaluations': n, 'distinct': n, 'failures': fails[:8], 'exhaustive': False,
             'bound': 'seeded random p-value arrays of size 1-4 (incl. 2x2) from {0, 1, NaN, 0.5, 0.04, 0.05, 0.025, 0.01, 0.0125, 0.001} with ties, levels {0.05, 0.01, 0.5}: '
                      'definitions of both corrections on the static methods; 1-3 bin Student comparisons through TestBonferroni / TestHolmBonferroni with an independent Student level '
-                     '(per-bin flags against the definitions applied to the underlying p-values)',
+                     '(per-bin flags against the definitions applied to the underlying p-values); 2-3 compared datasets in one test; 2-d p-value arrays in C / Fortran order and transposed views',
             'samples': [{'pvalues': [0.05, float('nan')], 'shape': [2], 'level': 0.05}]}
 
 
